@@ -5,6 +5,7 @@
 from __future__ import annotations
 
 import ast
+import copy
 
 from sa.core import AnalysisError, attr_chain, norm, resolve_callee, src, walk_no_nested
 
@@ -84,17 +85,61 @@ class Registration:
         return out
 
 
+class _Subst(ast.NodeTransformer):
+    def __init__(self, mapping):
+        self.mapping = mapping
+
+    def visit_Name(self, node):
+        if isinstance(node.ctx, ast.Load) and node.id in self.mapping:
+            return copy.deepcopy(self.mapping[node.id])
+        return node
+
+
+def expand_local_call(value, localfns, depth=0):
+    """`helper(a, b)` where helper is a nested def of ops.__init__ consisting of `return <expr>` is replaced by
+    <expr> with the parameters substituted: table entries written through small local wrappers are analysed as if
+    they were written out."""
+    if depth > 3 or not (isinstance(value, ast.Call) and isinstance(value.func, ast.Name) and value.func.id in localfns):
+        return value
+    fn = localfns[value.func.id]
+    body = [st for st in fn.body if not (isinstance(st, ast.Expr) and isinstance(st.value, ast.Constant))]
+    if len(body) != 1 or not isinstance(body[0], ast.Return) or body[0].value is None:
+        return value
+    params = [a.arg for a in fn.args.args]
+    mapping = {}
+    for i, a in enumerate(value.args):
+        if i < len(params) and not isinstance(a, ast.Starred):
+            mapping[params[i]] = a
+    for k in value.keywords:
+        if k.arg in params:
+            mapping[k.arg] = k.value
+    defaults = fn.args.defaults
+    for prm, d in zip(params[len(params) - len(defaults):], defaults):
+        mapping.setdefault(prm, d)
+    if set(params) - set(mapping):
+        return value
+    new = _Subst(mapping).visit(copy.deepcopy(body[0].value))
+    ast.copy_location(new, value)
+    ast.fix_missing_locations(new)
+    from sa.core import set_parents
+
+    set_parents(new)
+    new._parent = getattr(value, "_parent", None)
+    return expand_local_call(new, localfns, depth + 1)
+
+
 def registrations(p, cls):
     init = cls.methods.get("__init__")
     if init is None:
         raise AnalysisError(f"{cls.qualname} has no __init__")
     selfname = init.node.args.args[0].arg
+    localfns = {n.name: n for n in walk_no_nested(init.node) if isinstance(n, ast.FunctionDef)}
     regs = []
     for n in walk_no_nested(init.node):
         if isinstance(n, ast.Assign):
             for t in n.targets:
                 if isinstance(t, ast.Attribute) and isinstance(t.value, ast.Name) and t.value.id == selfname:
-                    regs.append(Registration(cls, t.attr, n, n.value))
+                    regs.append(Registration(cls, t.attr, n, expand_local_call(n.value, localfns)))
     return regs
 
 
